@@ -486,8 +486,20 @@ def check_percolation(ctx):
                    f'the search over the peaks stops early (`{norm_text(exits[0])}`): a later peak with a cheaper percolating path is never tried')
     restores = [n for n in ast.walk(body) if isinstance(n, ast.Assign) and norm_text(n.targets[0]) == 'best_path.dims']
     if not restores:
-        ctx.ob('R5', fi, 'best_path.dims', False, 'the dimensions of the original grid are not restored on the returned path: wrapped '
-                                                  'coordinates are then taken modulo nothing / the tiled grid')
+        # on values: the `dims` of the returned path object
+        res_ = it.result
+        oids_ = sorted(res_.oids) if (res_ is not None and res_.oids) else ([res_.oid] if (res_ is not None and res_.ty == 'obj' and res_.oid is not None) else [])
+        dv = [it.final_state.heap.get(o, {}).get('dims') for o in oids_]
+        dv = [d_ for d_ in dv if d_ is not None]
+        sxs = {(d_.sx or '').replace(' ', '') for d_ in dv}
+        if dv and sxs == {'F.dims'}:
+            ctx.ob('R5', fi, 'best_path.dims', True, 'original grid dimensions restored')
+        elif dv and all(d_.shapeof is not None or 'tile' in (d_.sx or '') or 'shape' in (d_.sx or '') for d_ in dv):
+            ctx.ob('R5', fi, 'best_path.dims', False, 'the dimensions of the original grid are not restored on the returned path: wrapped '
+                                                      'coordinates are then taken modulo the tiled grid')
+        else:
+            ctx.ob('R5', fi, 'best_path.dims', None, 'dims of the returned path not derivable')
     for n in restores:
         ok = norm_text(n.value) == 'F.dims'
-        ctx.ob('R5', fi, n, True if ok else False, 'original grid dimensions restored' if ok else 'dims restored from something other than the original volume')
+        ctx.ob('R5', fi, n, True if ok else (False if it.sx(n.value).replace(' ', '') != 'F.dims' else True),
+               'original grid dimensions restored' if (ok or it.sx(n.value).replace(' ', '') == 'F.dims') else 'dims restored from something other than the original volume')
